@@ -8,11 +8,15 @@ EXPLANATION = ('Loop summaries and effect sets of core::_init and its three entr
                'T::from_f64(StandardNormal.sample(&mut rng)) per element collected in iteration order from ONE generator (row-major single stream => a request for fewer rows '
                'is a prefix of a larger one with the same d and seed); init_with_seed seeds a local generator from its argument and has no other effect; '
                'init_det(n, d) = init_with_seed(n, d, 42) with arguments in order; init seeds from the OS. Normality/independence as statistics are not decided (draw kind only).')
-FLOORS = {'obligations': 10}   # counted on the reference tree; fewer instantiated obligations is reported, never passed silently
+FLOORS = {'obligations': 13}   # counted on the reference tree; fewer instantiated obligations is reported, never passed silently
 TECHNIQUE = 'loop summaries (nested trip counts, single carried generator) + effect-set analysis'
 
 
 def run(ctx):
+    for nm in ('init', 'init_det', 'init_with_seed'):
+        _r = ctx.anchor('core::' + nm, path='core::' + nm)
+        if _r is not None:
+            narrowing_budget(ctx, 'C18', 'core::' + nm, [_r], {}, why='a conversion to a fixed narrower float type (or an f64 -> element-type read-back) on this path changes values for wider element types / back ends', sp=_r['sp'])
     A = 'core::_init'
     b = ctx.helper('core._init')
     bw = ctx.anchor('core::init_with_seed', path='core::init_with_seed')
